@@ -6807,7 +6807,7 @@ static int32_t ocspParseBasicResponse(psPool_t *pool, uint32_t len,
         return PS_PARSE_FAIL;
     }
     if (getAsnLength(&p, (int32) (end - p), &glen) < 0 ||
-        (uint32) (end - p) < glen)
+        (uint32) (end - p) < glen || glen < 1)
     {
         psTraceCrypto("Error parsing signature in ResponseData\n");
         return PS_PARSE_FAIL;
